@@ -127,6 +127,28 @@ def analytic_psfs(rep, r, n):
             vals = m(x0 + g[None, :], y0 + g[:, None])
             if (vals < 0).any() or float(m(x0, y0)) < vals.max() - 1e-12 * abs(vals.max()):
                 rep.violation(f'psf-shape:{name}', f'{name} is negative somewhere or not peaked at (x_0, y_0)', {'fwhm': fw})
+    # rotated elongated Gaussians rendered on their own bounding box (make_model_image without model_shape) keep their flux:
+    # the box must contain the 5.5-sigma ellipse for every rotation angle, given in degrees or as a Quantity
+    import astropy.units as u
+    from astropy.table import Table
+    from photutils.datasets import make_model_image
+    from photutils.psf import GaussianPRF
+    for k in range(max(4, n // 2)):
+        xf, yf = r.uniform(6.0, 10.0), r.uniform(1.5, 2.5)
+        th = r.choice([0.0, 90.0, 270.0, 45.0, r.uniform(0, 360)])
+        thq = r.choice([th, th * u.deg, math.radians(th) * u.rad])
+        flux = r.choice([1.0, 250.0])
+        for cls in (GaussianPRF, GaussianPSF):
+            m = cls(x_fwhm=xf, y_fwhm=yf, theta=thq)
+            with warnings.catch_warnings():
+                warnings.simplefilter('ignore')
+                img = make_model_image((91, 91), m, Table({'x_0': [45.0], 'y_0': [45.3], 'flux': [flux]}))
+            rep.case(('bboxrender', cls.__name__, xf, yf, str(thq)), True, kind=f'bbox-render:{cls.__name__}')
+            rep.probe_only += 1
+            tol = 1e-5 if cls is GaussianPRF else 2e-3          # the PSF (not pixel-integrated) form is sampled at pixel centres
+            if abs(float(img.sum()) - flux) > tol * flux:
+                rep.violation(f'bbox-render-loses-flux:{cls.__name__}', f'{cls.__name__}(x_fwhm={xf:.3f}, y_fwhm={yf:.3f}, theta={thq}) rendered on its bounding box '
+                              f'sums to {float(img.sum())}, flux is {flux}', {'x_fwhm': xf, 'y_fwhm': yf, 'theta': str(thq)})
     # Airy disk: first zero at the documented radius and total normalisation of the radial profile to the first zeros
     from scipy.special import jn_zeros
     m = AiryDiskPSF(flux=1.0, x_0=0.0, y_0=0.0, radius=5.0)
@@ -190,9 +212,10 @@ def make_grid(r):
     gy = {'3x3': [0, 24, 32], '2x2': [0, 28], '1x3': [10], '3x1': [0, 16, 40], '1x1': [6], '2x3': [2, 30]}[layout]
     yy, xx = np.mgrid[0:9, 0:9]
     psfs, pos = [], []
+    sig0 = r.choice([1.1, 1.25, 1.4, 0.95])          # models on the same grid layout hold different ePSFs (nothing may be shared between objects)
     for iy, y in enumerate(gy):
         for ix, x in enumerate(gx):
-            sig = 1.1 + 0.2 * ix + 0.35 * iy
+            sig = sig0 + 0.2 * ix + 0.35 * iy
             d = np.exp(-((xx - 4) ** 2 + (yy - 4) ** 2) / (2 * sig ** 2))
             psfs.append(d / d.sum())
             pos.append((x, y))
